@@ -31,8 +31,12 @@ import (
 	ethtypes "github.com/ethereum/go-ethereum/core/types"
 	"github.com/ethereum/go-ethereum/rpc"
 	"github.com/syndtr/goleveldb/leveldb"
+	abci "github.com/tendermint/tendermint/abci/types"
+	tmlog "github.com/tendermint/tendermint/libs/log"
 	rpcclient "github.com/tendermint/tendermint/rpc/client"
 	ctypes "github.com/tendermint/tendermint/rpc/core/types"
+	tmrpcserver "github.com/tendermint/tendermint/rpc/jsonrpc/server"
+	tmrpctypes "github.com/tendermint/tendermint/rpc/jsonrpc/types"
 	tmtypes "github.com/tendermint/tendermint/types"
 	"go.uber.org/zap"
 )
@@ -68,6 +72,9 @@ type Scenario struct {
 	DBDir   string            `json:"db_dir"`
 	Trace   string            `json:"trace"`
 	StartAt int               `json:"start_at"` // index of the first step of this segment
+	// Cosmos: the relayer's other listener (CosmosSub.Start) runs on the same LevelDB against a fake Tendermint node that
+	// announces one Sifchain block (height 100000 + step) after every step, as in the real relayer process
+	Cosmos bool `json:"cosmos"`
 }
 
 type tracer struct {
@@ -188,6 +195,48 @@ func (s *ethService) NewHeads(ctx context.Context) (*rpc.Subscription, error) {
 		}
 	}()
 	return sub, nil
+}
+
+// ---- fake Tendermint node for the Cosmos listener (NewBlock subscription, block_results without events) ----
+
+type tmNode struct{ blocks chan int64 }
+
+func startTMNode() (*tmNode, string) {
+	n := &tmNode{blocks: make(chan int64, 64)}
+	subscribe := func(ctx *tmrpctypes.Context, q string) (*ctypes.ResultSubscribe, error) {
+		id := ctx.JSONReq.ID
+		go func() {
+			for h := range n.blocks {
+				block := tmtypes.MakeBlock(h, nil, nil, nil)
+				ev := &ctypes.ResultEvent{Query: q, Data: tmtypes.EventDataNewBlock{Block: block}}
+				_ = ctx.WSConn.WriteRPCResponse(context.Background(), tmrpctypes.NewRPCSuccessResponse(id, ev))
+			}
+		}()
+		return &ctypes.ResultSubscribe{}, nil
+	}
+	unsubscribe := func(ctx *tmrpctypes.Context, q string) (*ctypes.ResultUnsubscribe, error) {
+		return &ctypes.ResultUnsubscribe{}, nil
+	}
+	blockResults := func(ctx *tmrpctypes.Context, height *int64) (*ctypes.ResultBlockResults, error) {
+		return &ctypes.ResultBlockResults{Height: *height, TxsResults: []*abci.ResponseDeliverTx{}}, nil
+	}
+	routes := map[string]*tmrpcserver.RPCFunc{
+		"subscribe":     tmrpcserver.NewWSRPCFunc(subscribe, "query"),
+		"unsubscribe":   tmrpcserver.NewWSRPCFunc(unsubscribe, "query"),
+		"block_results": tmrpcserver.NewRPCFunc(blockResults, "height"),
+	}
+	logger := tmlog.NewNopLogger()
+	mux := http.NewServeMux()
+	wm := tmrpcserver.NewWebsocketManager(routes)
+	wm.SetLogger(logger)
+	mux.HandleFunc("/websocket", wm.WebsocketHandler)
+	tmrpcserver.RegisterRPCFuncs(mux, routes, logger)
+	lis, err := net.Listen("tcp", "127.0.0.1:0")
+	if err != nil {
+		panic(err)
+	}
+	go func() { _ = http.Serve(lis, mux) }()
+	return n, "tcp://" + lis.Addr().String()
 }
 
 func recipient() string {
@@ -357,7 +406,36 @@ func RunSegment(scFile string) {
 	wg.Add(1)
 	var translator *txs.VerifSymbolTranslator
 	go sub.Start(txf, &wg, translator)
+	var tmn *tmNode
+	if sc.Cosmos {
+		var tmURL string
+		tmn, tmURL = startTMNode()
+		csub := relayer.NewCosmosSub(tmURL, url, registryAddr, nil, db, logger)
+		wg.Add(1)
+		go csub.Start(&wg, translator)
+	}
 	time.Sleep(2500 * time.Millisecond) // Start sleeps one second, then dials, looks the bridge bank up and subscribes
+	cosmosCursor := func() int64 {
+		data, err := db.Get([]byte("cosmosLastProcessedBlock"), nil)
+		if err != nil {
+			return 0
+		}
+		return new(big.Int).SetBytes(data).Int64()
+	}
+	// a Sifchain block for the other listener, before the next Ethereum header is announced
+	sifBlock := func(i int) {
+		if tmn == nil {
+			return
+		}
+		h := int64(100000 + 2*i)
+		tmn.blocks <- h
+		tmn.blocks <- h + 1 // the listener handles a block when the next one is announced
+		deadline := time.Now().Add(3 * time.Second)
+		for cosmosCursor() < h && time.Now().Before(deadline) {
+			time.Sleep(20 * time.Millisecond)
+		}
+		tr.line("X %d %d", i, cosmosCursor())
+	}
 
 	readCursor := func() int64 {
 		data, err := db.Get([]byte(DBKey), nil)
@@ -371,6 +449,7 @@ func RunSegment(scFile string) {
 		n.mu.Lock()
 		n.cur = &sc.Steps[i]
 		n.mu.Unlock()
+		sifBlock(i)
 		before := readCursor()
 		tr.line("H %d %d", i, st.N)
 		n.heads <- st.N
